@@ -184,6 +184,13 @@ class Func:
                 work.append(s)
         return True, None
 
+    def normal_paths_pass_block(self, block):
+        """Every path entry -> normal exit goes through `block` (paths ending
+        in a throw / noreturn call are ignored)."""
+        exc = [b for b in self.blocks if self.is_exceptional(b)]
+        r = self.reach([self.entry], blocked_blocks=[block] + exc)
+        return self.exit not in r
+
     def path_locs(self, path):
         out = []
         for b in path or []:
